@@ -93,6 +93,34 @@ func TestVerifC17ResponseHeaders(t *testing.T) {
 	p.End(complete, c17HeaderBound, c17HeaderRule)
 }
 
+// c17RefHeaderFirstLineOnly is a WRONG model used only to name a deviation:
+// additions rewrite the first line that carries the key and leave further
+// lines alone.
+func c17RefHeaderFirstLineOnly(initial []string, muts [3]c17Mut) []string {
+	vals := append([]string(nil), initial...)
+	for _, m := range muts {
+		switch m.Op {
+		case "append":
+			if len(vals) > 0 {
+				vals[0] = vals[0] + "," + m.Value
+			} else {
+				vals = []string{m.Value}
+			}
+		case "overwrite":
+			if len(vals) > 0 {
+				vals[0] = m.Value
+			} else {
+				vals = []string{m.Value}
+			}
+		case "remove":
+			vals = nil
+		}
+	}
+	return vals
+}
+
+func c17FlatSet(v []string) string { _, s := c17Flat(v); return s }
+
 // c17Diagnose names the deviation if it coincides with a simple wrong model.
 func c17Diagnose(c c17HeaderCase, got []string) string {
 	flat := func(v []string) string { s, _ := c17Flat(v); return s }
@@ -223,18 +251,16 @@ func c17CheckHeaders(p *vreport.Part, c c17HeaderCase) {
 	if !bad {
 		return
 	}
-	var what string
-	if len(c.Initial) == 2 {
-		first := "none"
-		for _, m := range c.Muts {
-			if m.Op != "" {
-				first = m.Op
-				break
-			}
+	what := c17Diagnose(c, got)
+	if len(c.Initial) == 2 && strings.HasPrefix(what, "resulting values differ") {
+		// the carrier's Set touching only the first of several lines is a
+		// property of the header object, not of the way the route was matched
+		if gotSet == c17FlatSet(c17RefHeaderFirstLineOnly(c.Initial, c.Muts)) {
+			p.Violation(fmt.Sprintf("%s-headers: %s, key on two header lines: add with append=false replaces only the first line (the other value survives)", c.Dir, c.Carrier),
+				fmt.Sprintf("route kind %s; config %s; message carried x-k=%v; mutations %s: expected x-k values %v, got %v", c.Kind, text, c.Initial, c17MutsString(c.Muts), want, got), c)
+			return
 		}
-		what = "message carries the key on two header lines, first configured mutation is " + first + ": " + c17Diagnose(c, got)
-	} else {
-		what = c17Diagnose(c, got)
+		what = "key on two header lines: " + what
 	}
 	p.Violation(fmt.Sprintf("%s-headers: route kind %s, %s: %s", c.Dir, c17KindClass(c.Kind), c.Carrier, what),
 		fmt.Sprintf("config %s; message carried x-k=%v; mutations %s: expected x-k values %v, got %v", text, c.Initial, c17MutsString(c.Muts), want, got), c)
